@@ -171,6 +171,8 @@ PROPS = {
                      (T + "C04.parse_injective_up_to_case_and_prefix", T + "C04")],
         "extract_keys": ["HEX_", "decode_digit", "hash prefix", "LEN_IN_STR"],
         "spec_is_property": True,
+        # C04 is about round trips and canonical text: WHICH error a rejected string gets is C05's business
+        "spec_mm_filter": "acceptance",
         "streams": {
             "quick": [(c, "fmt", 400) for c in ['default', 'optdef', 'embedded', 'quarter', 'mintab', 'hexsimd-only']] + [(c, "parse", 1500) for c in ['default', 'optdef', 'embedded', 'quarter', 'mintab', 'hexsimd-only']],
             "thorough": [(c, "fmt", 10000) for c in ['default', 'optdef', 'embedded', 'quarter', 'mintab', 'hexsimd-only']] + [(c, "parse", 30000) for c in ['default', 'optdef', 'embedded', 'quarter', 'mintab', 'hexsimd-only']]
@@ -318,9 +320,14 @@ PROPS = {
                      (T + "C13.compare_with_spec", T + "C13"),
                      (T + "C13.compare_case_prefix_insensitive", T + "C13")],
         "bv_decide_theorems": {'TlshVerif.Theorems.C13.compare_with_spec'},
-        "spec_is_property": True,
+        # C13 is relative to parse-then-compare of this build: the probe's direct oracle states exactly that;
+        # a value that differs from the reference is another property's business
+        "spec_is_property": False,
+        "ignore_spec_mm": True,
         "streams": {
-            "quick": [("default", "cmpstr", 4000), ("embedded", "cmpstr", 1500), ("strict", "cmpstr", 1500)],
+            "quick": [("default", "cmpstr", 4000), ("embedded", "cmpstr", 1500), ("strict", "cmpstr", 1500)]
+                     # every hex-table / SIMD-parse configuration: the helpers sit on top of the parser
+                     + [(c, "cmpstr", 1000) for c in ["optdef", "mintab", "hexsimd-only"]],
             "thorough": [("default", "cmpstr", 100000), ("embedded", "cmpstr", 30000), ("strict", "cmpstr", 30000),
                          ("quarter", "cmpstr", 30000), ("mintab", "cmpstr", 30000), ("unsafe", "cmpstr", 30000),
                          ("default-dev", "cmpstr", 20000)],
@@ -337,10 +344,13 @@ PROPS = {
                      (T + "C12.source_retries_interrupted", T + "C12"),
                      (T + "C01.tables", T + "C01")],
         "extract_keys": ["BUFFER_SIZE", "hash_stream_common"],
-        "spec_is_property": True,
+        # C12 is relative to hash_buf of the delivered bytes: the probe's direct oracle states exactly that;
+        # a value that differs from the reference is another property's business
+        "spec_is_property": False,
+        "ignore_spec_mm": True,
         "streams": {
             "quick": [("default", "stream", 1500), ("default", "file", 0), ("embedded", "stream", 600),
-                      ("optdef", "stream", 600)],
+                      ("optdef", "stream", 600), ("embedded", "file", 0), ("unsafe", "file", 0)],
             "thorough": [("default", "stream", 30000), ("default", "file", 0), ("embedded", "stream", 10000),
                          ("optdef", "stream", 10000), ("unsafe", "stream", 10000), ("unsafe", "file", 0),
                          ("default-dev", "stream", 10000), ("strict", "stream", 5000)],
@@ -361,13 +371,20 @@ PROPS = {
                      (T + "Tables.strict", T + "TablesStrict"), (T + "C04.tables", T + "C04")],
         "modules_extra": [T + "TablesStrict", T + "C04"],
         "extract_keys": ["short checksum validity", "ENCODED_VALUE_SIZE", "SUBST_TABLE_48"],
-        "spec_is_property": True,
+        # C15 relates the strict parser to the lenient parser OF THE SAME TREE: the same operations run in the
+        # lenient (`default`) and in the strict build and are compared by `strict_relation` (check); generated
+        # hashes are judged by the probe's validity / round-trip oracle
+        "spec_is_property": False,
+        "ignore_spec_mm": True,
+        "relations": [("default", "strict", "strict_relation", ["parse", "parse-sweep", "frombin"])],
         "streams": {
             "quick": [("strict", "parse", 4000), ("strict", "parse-sweep", 32), ("strict", "frombin", 1500),
+                      ("default", "parse", 4000), ("default", "parse-sweep", 32), ("default", "frombin", 1500),
                       ("strict", "gen", 2500), ("strict", "hist", 800), ("default", "gen", 800),
                       # builds that compute the 48-bucket checksum step without the double table
                       ("naive", "gen", 1500), ("embedded", "gen", 800)],
             "thorough": [("strict", "parse", 80000), ("strict", "parse-sweep", 2), ("strict", "frombin", 40000),
+                         ("default", "parse", 80000), ("default", "parse-sweep", 2), ("default", "frombin", 40000),
                          ("strict", "gen", 40000), ("strict", "hist", 20000), ("unsafe-strict", "parse", 30000),
                          ("unsafe-strict", "frombin", 20000), ("unsafe-strict", "gen", 10000),
                          ("default", "gen", 20000), ("embedded", "gen", 10000), ("naive", "gen", 10000)],
@@ -390,11 +407,15 @@ PROPS = {
                      (T + "C04.tables", T + "C04")],
         "modules_extra": [T + "C04"],
         "extract_keys": ["serde visitors"],
-        "spec_is_property": True,
+        # C16 is relative to this build's parsers and formatters: the probe's direct oracles state exactly that;
+        # a value that differs from the reference is another property's business
+        "spec_is_property": False,
+        "ignore_spec_mm": True,
         "streams": {
-            "quick": [("serde", "serde", 300), ("strict", "serde", 300), ("serde-buf", "serde", 300)],
+            "quick": [("serde", "serde", 300), ("strict", "serde", 300), ("serde-buf", "serde", 300),
+                      ("serde-buf-strict", "serde", 300)],
             "thorough": [("serde", "serde", 6000), ("strict", "serde", 6000), ("serde-buf", "serde", 6000),
-                         ("unsafe-strict", "serde", 3000)],
+                         ("unsafe-strict", "serde", 3000), ("serde-buf-strict", "serde", 6000)],
         },
         "rule": "per case: serialize through a recording serializer (human-readable and not) and through "
                 "serde_json / ciborium / postcard with round trip; one Visitor event of each kind through a "
@@ -423,6 +444,7 @@ PROPS = {
                      (T + "C17.misreporting_reader_panics", T + "C17"),
                      (T + "C17.misreporting_reader_ub_counterexample", T + "C17"),
                      (T + "C17.unchecked_calls", T + "C17"),
+                     (T + "C17.unsafe_census", T + "C17"), (T + "C17.macros_reviewed", T + "C17"),
                      (T + "C17.utf8_ok", T + "C17"),
                      (T + "C17.loads_in_bounds", T + "C17"),
                      (T + "C17.aggregation_chunks", T + "C17"),
@@ -432,7 +454,15 @@ PROPS = {
                      (T + "C17.unsafe_same_result", T + "C17")],
         "bv_decide_theorems": {'TlshVerif.Theorems.C17.api_total'},
         "extract_keys": ["invariant sites", "load sites", "aggregation chunk", "hash_stream_common", "kernel"],
-        "spec_is_property": True,
+        # C17 is about defined behaviour, documented panics only, and `unsafe` changing no result: concrete
+        # witnesses are undocumented panics / crashes and lines on which the build with `unsafe` differs from
+        # the same build without it; a value that differs from the reference is another property's business
+        "spec_is_property": False,
+        "ignore_spec_mm": True,
+        "model_mm_filter": "outcome-class",
+        "cross_config_pairs": [("default", "unsafe"), ("default-dev", "unsafe-dev"), ("strict", "unsafe-strict")],
+        "cross_config_streams": ["gen", "state", "hist", "parse", "fmt", "frombin", "store", "acc", "cmp", "body",
+                                 "len", "stream", "cmpstr", "serde"],
         "panic_concrete": True,
         "streams": {
             "quick": [('unsafe', 'gen', 600), ('unsafe', 'state', 600), ('unsafe', 'hist', 300), ('unsafe', 'parse', 1500), ('unsafe', 'fmt', 150), ('unsafe', 'frombin', 300), ('unsafe', 'store', 2), ('unsafe', 'acc', 300), ('unsafe', 'cmp', 1000), ('unsafe', 'body', 600), ('unsafe', 'len', 1000), ('unsafe', 'stream', 400), ('unsafe', 'cmpstr', 800), ('default-dev', 'gen', 300), ('default-dev', 'state', 300), ('default-dev', 'hist', 150), ('default-dev', 'parse', 750), ('default-dev', 'fmt', 75), ('default-dev', 'frombin', 150), ('default-dev', 'store', 1), ('default-dev', 'acc', 150), ('default-dev', 'cmp', 500), ('default-dev', 'body', 300), ('default-dev', 'len', 500), ('default-dev', 'stream', 200), ('default-dev', 'cmpstr', 400), ('unsafe-dev', 'gen', 300), ('unsafe-dev', 'state', 300), ('unsafe-dev', 'hist', 150), ('unsafe-dev', 'parse', 750), ('unsafe-dev', 'fmt', 75), ('unsafe-dev', 'frombin', 150), ('unsafe-dev', 'store', 1), ('unsafe-dev', 'acc', 150), ('unsafe-dev', 'cmp', 500), ('unsafe-dev', 'body', 300), ('unsafe-dev', 'len', 500), ('unsafe-dev', 'stream', 200), ('unsafe-dev', 'cmpstr', 400), ('unsafe', 'lie', 0), ('unsafe-dev', 'lie', 0), ('default', 'lie', 0), ('default-dev', 'lie', 0), ('unsafe-strict', 'serde', 150), ('unsafe-strict', 'frombin', 300)],
@@ -501,10 +531,14 @@ PROPS = {
         "modules_extra": [T + "C01", T + "C02", T + "C04"],
         "bv_decide_theorems": {'TlshVerif.Theorems.C07.generate_any_cfg_eq_spec', 'TlshVerif.Theorems.C07.compare_cfg_irrelevant', 'TlshVerif.Theorems.C07.aggregation_dispatch_any', 'TlshVerif.Theorems.C07.generate_cfg_irrelevant', 'TlshVerif.Theorems.C07.distance_dispatch_any'},
         "extract_keys": ["kernel", "SUBST_TABLE", "HEX_", "dist_"],
-        "spec_is_property": True,
-        "cross_config_streams": ['gen', 'cmp', 'fmt', 'store', 'frombin', 'len', 'state-none'],
+        # C07 is about configurations and back ends agreeing WITH EACH OTHER: a concrete witness is a
+        # line on which two configurations differ (transcript diff) or an in-binary back-end oracle;
+        # "differs from the reference" alone (MM spec) is another property's business and only breaks the
+        # transfer of the cfg-irrelevance theorems (=> search, no-failing-input-found)
+        "spec_is_property": False,
+        "cross_config_streams": ['gen', 'cmp', 'fmt', 'store', 'frombin', 'len', 'cmpstr', 'stream', 'parse', 'parse-sweep', 'tables'],
         "streams": {
-            "quick": [('default', 'parse-sweep', 24), ('naive', 'parse-sweep', 24), ('optdef', 'parse-sweep', 24), ('embedded', 'parse-sweep', 24), ('quarter', 'parse-sweep', 24), ('mintab', 'parse-sweep', 24), ('hexsimd-only', 'parse-sweep', 24), ('unsafe', 'parse-sweep', 24), ('default', 'gen', 250), ('default', 'cmp', 400), ('default', 'fmt', 60), ('default', 'store', 1), ('default', 'frombin', 100), ('default', 'len', 300), ('default', 'tables', 300), ('default', 'agg', 200), ('default', 'body', 200), ('default', 'parse', 400), ('naive', 'gen', 250), ('naive', 'cmp', 400), ('naive', 'fmt', 60), ('naive', 'store', 1), ('naive', 'frombin', 100), ('naive', 'len', 300), ('naive', 'tables', 300), ('naive', 'agg', 200), ('naive', 'body', 200), ('optdef', 'gen', 250), ('optdef', 'cmp', 400), ('optdef', 'fmt', 60), ('optdef', 'store', 1), ('optdef', 'frombin', 100), ('optdef', 'len', 300), ('optdef', 'tables', 300), ('optdef', 'agg', 200), ('optdef', 'body', 200), ('optdef', 'parse', 400), ('embedded', 'gen', 250), ('embedded', 'cmp', 400), ('embedded', 'fmt', 60), ('embedded', 'store', 1), ('embedded', 'frombin', 100), ('embedded', 'len', 300), ('embedded', 'tables', 300), ('embedded', 'agg', 200), ('embedded', 'body', 200), ('embedded', 'parse', 400), ('quarter', 'gen', 250), ('quarter', 'cmp', 400), ('quarter', 'fmt', 60), ('quarter', 'store', 1), ('quarter', 'frombin', 100), ('quarter', 'len', 300), ('quarter', 'tables', 300), ('quarter', 'agg', 200), ('quarter', 'body', 200), ('quarter', 'parse', 400), ('mintab', 'gen', 250), ('mintab', 'cmp', 400), ('mintab', 'fmt', 60), ('mintab', 'store', 1), ('mintab', 'frombin', 100), ('mintab', 'len', 300), ('mintab', 'tables', 300), ('mintab', 'agg', 200), ('mintab', 'body', 200), ('mintab', 'parse', 400), ('static-avx2', 'gen', 250), ('static-avx2', 'cmp', 400), ('static-avx2', 'fmt', 60), ('static-avx2', 'store', 1), ('static-avx2', 'frombin', 100), ('static-avx2', 'len', 300), ('static-avx2', 'tables', 300), ('static-avx2', 'agg', 200), ('static-avx2', 'body', 200), ('static-avx2', 'parse', 400), ('static-sse41', 'gen', 250), ('static-sse41', 'cmp', 400), ('static-sse41', 'fmt', 60), ('static-sse41', 'store', 1), ('static-sse41', 'frombin', 100), ('static-sse41', 'len', 300), ('static-sse41', 'tables', 300), ('static-sse41', 'agg', 200), ('static-sse41', 'body', 200), ('static-sse41', 'parse', 400), ('static-sse2', 'gen', 250), ('static-sse2', 'cmp', 400), ('static-sse2', 'fmt', 60), ('static-sse2', 'store', 1), ('static-sse2', 'frombin', 100), ('static-sse2', 'len', 300), ('static-sse2', 'tables', 300), ('static-sse2', 'agg', 200), ('static-sse2', 'body', 200), ('static-sse2', 'parse', 400), ('hexsimd-only', 'gen', 250), ('hexsimd-only', 'cmp', 400), ('hexsimd-only', 'fmt', 60), ('hexsimd-only', 'store', 1), ('hexsimd-only', 'frombin', 100), ('hexsimd-only', 'len', 300), ('hexsimd-only', 'tables', 300), ('hexsimd-only', 'agg', 200), ('hexsimd-only', 'body', 200), ('hexsimd-only', 'parse', 400), ('unsafe', 'gen', 250), ('unsafe', 'cmp', 400), ('unsafe', 'fmt', 60), ('unsafe', 'store', 1), ('unsafe', 'frombin', 100), ('unsafe', 'len', 300), ('unsafe', 'tables', 300), ('unsafe', 'agg', 200), ('unsafe', 'body', 200), ('unsafe', 'parse', 400), ('default', 'race', 8), ('default', 'hist', 200), ('embedded', 'state', 300), ('default', 'state', 300)],
+            "quick": [('default', 'cmpstr', 300), ('default', 'stream', 60), ('optdef', 'cmpstr', 300), ('optdef', 'stream', 60), ('embedded', 'cmpstr', 300), ('embedded', 'stream', 60), ('quarter', 'cmpstr', 300), ('quarter', 'stream', 60), ('mintab', 'cmpstr', 300), ('mintab', 'stream', 60), ('hexsimd-only', 'cmpstr', 300), ('hexsimd-only', 'stream', 60), ('static-avx2', 'cmpstr', 300), ('static-avx2', 'stream', 60), ('static-sse2', 'cmpstr', 300), ('static-sse2', 'stream', 60), ('unsafe', 'cmpstr', 300), ('unsafe', 'stream', 60), ('default', 'parse-sweep', 24), ('naive', 'parse-sweep', 24), ('optdef', 'parse-sweep', 24), ('embedded', 'parse-sweep', 24), ('quarter', 'parse-sweep', 24), ('mintab', 'parse-sweep', 24), ('hexsimd-only', 'parse-sweep', 24), ('unsafe', 'parse-sweep', 24), ('default', 'gen', 250), ('default', 'cmp', 400), ('default', 'fmt', 60), ('default', 'store', 1), ('default', 'frombin', 100), ('default', 'len', 300), ('default', 'tables', 300), ('default', 'agg', 200), ('default', 'body', 200), ('default', 'parse', 400), ('naive', 'gen', 250), ('naive', 'cmp', 400), ('naive', 'fmt', 60), ('naive', 'store', 1), ('naive', 'frombin', 100), ('naive', 'len', 300), ('naive', 'tables', 300), ('naive', 'agg', 200), ('naive', 'body', 200), ('optdef', 'gen', 250), ('optdef', 'cmp', 400), ('optdef', 'fmt', 60), ('optdef', 'store', 1), ('optdef', 'frombin', 100), ('optdef', 'len', 300), ('optdef', 'tables', 300), ('optdef', 'agg', 200), ('optdef', 'body', 200), ('optdef', 'parse', 400), ('embedded', 'gen', 250), ('embedded', 'cmp', 400), ('embedded', 'fmt', 60), ('embedded', 'store', 1), ('embedded', 'frombin', 100), ('embedded', 'len', 300), ('embedded', 'tables', 300), ('embedded', 'agg', 200), ('embedded', 'body', 200), ('embedded', 'parse', 400), ('quarter', 'gen', 250), ('quarter', 'cmp', 400), ('quarter', 'fmt', 60), ('quarter', 'store', 1), ('quarter', 'frombin', 100), ('quarter', 'len', 300), ('quarter', 'tables', 300), ('quarter', 'agg', 200), ('quarter', 'body', 200), ('quarter', 'parse', 400), ('mintab', 'gen', 250), ('mintab', 'cmp', 400), ('mintab', 'fmt', 60), ('mintab', 'store', 1), ('mintab', 'frombin', 100), ('mintab', 'len', 300), ('mintab', 'tables', 300), ('mintab', 'agg', 200), ('mintab', 'body', 200), ('mintab', 'parse', 400), ('static-avx2', 'gen', 250), ('static-avx2', 'cmp', 400), ('static-avx2', 'fmt', 60), ('static-avx2', 'store', 1), ('static-avx2', 'frombin', 100), ('static-avx2', 'len', 300), ('static-avx2', 'tables', 300), ('static-avx2', 'agg', 200), ('static-avx2', 'body', 200), ('static-avx2', 'parse', 400), ('static-sse41', 'gen', 250), ('static-sse41', 'cmp', 400), ('static-sse41', 'fmt', 60), ('static-sse41', 'store', 1), ('static-sse41', 'frombin', 100), ('static-sse41', 'len', 300), ('static-sse41', 'tables', 300), ('static-sse41', 'agg', 200), ('static-sse41', 'body', 200), ('static-sse41', 'parse', 400), ('static-sse2', 'gen', 250), ('static-sse2', 'cmp', 400), ('static-sse2', 'fmt', 60), ('static-sse2', 'store', 1), ('static-sse2', 'frombin', 100), ('static-sse2', 'len', 300), ('static-sse2', 'tables', 300), ('static-sse2', 'agg', 200), ('static-sse2', 'body', 200), ('static-sse2', 'parse', 400), ('hexsimd-only', 'gen', 250), ('hexsimd-only', 'cmp', 400), ('hexsimd-only', 'fmt', 60), ('hexsimd-only', 'store', 1), ('hexsimd-only', 'frombin', 100), ('hexsimd-only', 'len', 300), ('hexsimd-only', 'tables', 300), ('hexsimd-only', 'agg', 200), ('hexsimd-only', 'body', 200), ('hexsimd-only', 'parse', 400), ('unsafe', 'gen', 250), ('unsafe', 'cmp', 400), ('unsafe', 'fmt', 60), ('unsafe', 'store', 1), ('unsafe', 'frombin', 100), ('unsafe', 'len', 300), ('unsafe', 'tables', 300), ('unsafe', 'agg', 200), ('unsafe', 'body', 200), ('unsafe', 'parse', 400), ('default', 'race', 8), ('default', 'hist', 200), ('embedded', 'state', 300), ('default', 'state', 300)],
             "thorough": [('default', 'gen', 4000), ('default', 'cmp', 8000), ('default', 'fmt', 1500), ('default', 'store', 20), ('default', 'frombin', 3000), ('default', 'len', 5000), ('default', 'tables', 20000), ('default', 'agg', 8000), ('default', 'body', 8000), ('default', 'parse', 8000), ('default', 'state', 3000), ('naive', 'gen', 4000), ('naive', 'cmp', 8000), ('naive', 'fmt', 1500), ('naive', 'store', 20), ('naive', 'frombin', 3000), ('naive', 'len', 5000), ('naive', 'tables', 20000), ('naive', 'agg', 8000), ('naive', 'body', 8000), ('naive', 'parse', 8000), ('naive', 'state', 3000), ('optdef', 'gen', 4000), ('optdef', 'cmp', 8000), ('optdef', 'fmt', 1500), ('optdef', 'store', 20), ('optdef', 'frombin', 3000), ('optdef', 'len', 5000), ('optdef', 'tables', 20000), ('optdef', 'agg', 8000), ('optdef', 'body', 8000), ('optdef', 'parse', 8000), ('optdef', 'state', 3000), ('embedded', 'gen', 4000), ('embedded', 'cmp', 8000), ('embedded', 'fmt', 1500), ('embedded', 'store', 20), ('embedded', 'frombin', 3000), ('embedded', 'len', 5000), ('embedded', 'tables', 20000), ('embedded', 'agg', 8000), ('embedded', 'body', 8000), ('embedded', 'parse', 8000), ('embedded', 'state', 3000), ('quarter', 'gen', 4000), ('quarter', 'cmp', 8000), ('quarter', 'fmt', 1500), ('quarter', 'store', 20), ('quarter', 'frombin', 3000), ('quarter', 'len', 5000), ('quarter', 'tables', 20000), ('quarter', 'agg', 8000), ('quarter', 'body', 8000), ('quarter', 'parse', 8000), ('quarter', 'state', 3000), ('mintab', 'gen', 4000), ('mintab', 'cmp', 8000), ('mintab', 'fmt', 1500), ('mintab', 'store', 20), ('mintab', 'frombin', 3000), ('mintab', 'len', 5000), ('mintab', 'tables', 20000), ('mintab', 'agg', 8000), ('mintab', 'body', 8000), ('mintab', 'parse', 8000), ('mintab', 'state', 3000), ('static-avx2', 'gen', 4000), ('static-avx2', 'cmp', 8000), ('static-avx2', 'fmt', 1500), ('static-avx2', 'store', 20), ('static-avx2', 'frombin', 3000), ('static-avx2', 'len', 5000), ('static-avx2', 'tables', 20000), ('static-avx2', 'agg', 8000), ('static-avx2', 'body', 8000), ('static-avx2', 'parse', 8000), ('static-avx2', 'state', 3000), ('static-sse41', 'gen', 4000), ('static-sse41', 'cmp', 8000), ('static-sse41', 'fmt', 1500), ('static-sse41', 'store', 20), ('static-sse41', 'frombin', 3000), ('static-sse41', 'len', 5000), ('static-sse41', 'tables', 20000), ('static-sse41', 'agg', 8000), ('static-sse41', 'body', 8000), ('static-sse41', 'parse', 8000), ('static-sse41', 'state', 3000), ('static-sse2', 'gen', 4000), ('static-sse2', 'cmp', 8000), ('static-sse2', 'fmt', 1500), ('static-sse2', 'store', 20), ('static-sse2', 'frombin', 3000), ('static-sse2', 'len', 5000), ('static-sse2', 'tables', 20000), ('static-sse2', 'agg', 8000), ('static-sse2', 'body', 8000), ('static-sse2', 'parse', 8000), ('static-sse2', 'state', 3000), ('hexsimd-only', 'gen', 4000), ('hexsimd-only', 'cmp', 8000), ('hexsimd-only', 'fmt', 1500), ('hexsimd-only', 'store', 20), ('hexsimd-only', 'frombin', 3000), ('hexsimd-only', 'len', 5000), ('hexsimd-only', 'tables', 20000), ('hexsimd-only', 'agg', 8000), ('hexsimd-only', 'body', 8000), ('hexsimd-only', 'parse', 8000), ('hexsimd-only', 'state', 3000), ('unsafe', 'gen', 4000), ('unsafe', 'cmp', 8000), ('unsafe', 'fmt', 1500), ('unsafe', 'store', 20), ('unsafe', 'frombin', 3000), ('unsafe', 'len', 5000), ('unsafe', 'tables', 20000), ('unsafe', 'agg', 8000), ('unsafe', 'body', 8000), ('unsafe', 'parse', 8000), ('unsafe', 'state', 3000), ('default', 'race', 200), ('default', 'bodyrows', 2), ('static-sse2', 'bodyrows', 4), ('static-sse41', 'bodyrows', 4)],
         },
         "rule": "the same seeded corpus (gen, cmp, fmt, store, frombin, len) runs in every buildable configuration "
@@ -555,3 +589,19 @@ def _widen():
 
 
 _widen()
+
+
+# --- C17: "enabling `unsafe` changes no result" is checked as a diff between the build with the feature
+# and the same build without it (same streams, seeds and budgets)
+def _c17_twins():
+    for tier in ("quick", "thorough"):
+        lst = PROPS["C17"]["streams"][tier]
+        have = {(s[0], s[1], s[2]) for s in lst}
+        for s in list(lst):
+            twin = {"unsafe": "default", "unsafe-strict": "strict"}.get(s[0])
+            if twin and s[1] not in ("lie", "len-sweep", "bodyrows") and (twin, s[1], s[2]) not in have:
+                lst.append((twin,) + tuple(s[1:]))
+                have.add((twin, s[1], s[2]))
+
+
+_c17_twins()
